@@ -52,6 +52,25 @@ def build():
     return dut, ins, outs
 
 
+_abort = None
+
+
+def generator_abort():
+    """1 when the gateware under test resets its link command generator on link_reset (second C38 repair), else 0.
+    Functional probe: stall the bring-up LGOOD in the generator, drop `enable`, look at source.valid afterwards."""
+    global _abort
+    if _abort is None:
+        dut, ins, outs = build()
+        def row(en):
+            r = [0] * len(ins)
+            r[I_EN] = en
+            return r
+        _, orows = U.run_open(dut, ins, outs, [row(1)] * 5 + [row(0)] * 3)
+        assert orows[4][O_SV] == 1, "probe: the generator should be stalled in its header word"
+        _abort = 0 if orows[7][O_SV] else 1
+    return _abort
+
+
 # ------------------------------------------------------------------------------------------- stimulus
 class Pattern:
     """a ready/strobe pattern: probability per phase, phases of random length"""
@@ -271,6 +290,7 @@ class Monitor:
         env_ok = True
         lc_ok = True
         cmd_hdr = False
+        reset_since_hdr = False      # a link_reset since the last SLC header word (the command may be aborted)
         counts = {"rrq": 0, "ka": 0, "rej": 0, U.LRTY: 0, U.LUP: 0, U.LXU: 0}
         maxfill = 0
         last_enable = 0
@@ -331,15 +351,20 @@ class Monitor:
             if ep["t_en"] is None and i[I_EN] and not reset_ev and t > ep["start"]:
                 ep["t_en"] = t
                 if o[O_SV]:
-                    ep["checked"] = False          # the command in flight at link-down has not drained
-                    lc_ok = False
+                    # the command in flight at link-down has not drained (generator without abort): the epoch is
+                    # checked like every other - the stale command must not be sent, the advertisement must follow
+                    ep["busy"] = True
                     self.tags.add("epoch:generator-busy-at-enable")
             # -- link commands on the source
             if o[O_SV] and i[I_RDY]:
-                if not cmd_hdr:
-                    if not (o[O_SD] == U.LCSTART and o[O_SC] == 15):
+                is_hdr = (o[O_SD] == U.LCSTART and o[O_SC] == 15)
+                if not cmd_hdr or (is_hdr and reset_since_hdr):
+                    if cmd_hdr:
+                        self.tags.add("lc-truncated-by-link-down")   # generator with abort: the stale command is dropped
+                    if not is_hdr:
                         self.fail(t, "lc-framing", "link command does not start with SLC SLC SLC EPF")
                     cmd_hdr = True
+                    reset_since_hdr = False
                 else:
                     cmd_hdr = False
                     d = U.lc_decode(o[O_SD]) if o[O_SC] == 0 else None
@@ -359,6 +384,17 @@ class Monitor:
                             if ep["rrq"]:
                                 ep["checked"] = False
                                 self.tags.add("epoch:retry-request-during-advertisement")
+                            elif (cmd, sub) != want and ep.get("busy"):
+                                self.fail(t, "reenable-stale-command",
+                                          "command #%d after link re-entry at cycle %d (%s, during %s) is %s_%d, expected %s_%d: "
+                                          "the link command that was in flight when the link went down was still in the "
+                                          "generator when enable rose and %s"
+                                          % (k + 1, ep["start"], ep["kind"], ep["phase"], U.LC_NAMES.get(cmd, cmd), sub,
+                                             U.LC_NAMES[want[0]], want[1],
+                                             "went out ahead of the advertisement" if k == 0 else
+                                             "its completion was taken for the LGOOD advertisement"))
+                                ep["checked"] = False
+                                lc_ok = False
                             elif (cmd, sub) != want:
                                 self.fail(t, "reenable-advert" if ep["start"] >= 0 else "initial-advert",
                                           "command #%d after link %s at cycle %d (%s, during %s) is %s_%d, expected %s_%d"
@@ -429,6 +465,8 @@ class Monitor:
             elif t in bad_at:
                 ignore = True
             if reset_ev:
+                if cmd_hdr:
+                    reset_since_hdr = True
                 # the reset-on-disable block: fresh receive state, buffered headers dropped
                 phase = "idle" if not o[O_SV] else ("header" if o[O_SC] == 15 else "command")
                 kind = ("usb_reset" if i[I_RST] else "") + ("+" if i[I_RST] and last_enable and not i[I_EN] else "") + \
@@ -511,4 +549,4 @@ def run_case(desc):
     if desc.get("mode") == "legal" and all(r[I_EN] for r in irows[8:]) and not any(r[I_RST] for r in irows):
         lbad_liveness(mon, irows, orows, bad_events, lbads)
     tags = sorted(mon.tags | ptags | {"mode:" + desc.get("mode", "replay")})
-    return Case([1, 0], irows, [list(r) for r in orows], mon.fails, tags, desc, IN_NAMES, OUT_NAMES)
+    return Case([1, 0, generator_abort()], irows, [list(r) for r in orows], mon.fails, tags, desc, IN_NAMES, OUT_NAMES)
